@@ -29,3 +29,14 @@ Definition t_pairs (t : tree) : list (nat * nat) := map t_pair (t_list t).
 
 (* error values: L [I (-1); I code] *)
 Definition t_err (code : Z) : tree := L [I (-1); I code].
+
+(* exact rationals on the wire: L [I num; I den] with den > 0 *)
+From Coq Require Import QArith.
+Definition t_q (t : tree) : Q :=
+  match t_z (t_nth 1 t) with
+  | Zpos d => Qmake (t_z (t_nth 0 t)) d
+  | _ => Qmake (t_z (t_nth 0 t)) 1
+  end.
+Definition of_q (q : Q) : tree := let r := Qred q in L [I (Qnum r); I (Zpos (Qden r))].
+Definition t_qs (t : tree) : list Q := map t_q (t_list t).
+Definition of_qs (l : list Q) : tree := L (map of_q l).
